@@ -356,7 +356,7 @@ PROPERTIES['C14'] = {
 PROPERTIES['C16'] = {
     'level': 'other',
     'configs': two,
-    'rules': [R(lock7a), olc('LOCK-7'), olc('ROLE'), R(ptr.ptr2), R(cfgdiff.assert_range), R(cfgdiff.assert_optimistic), R(lockword.lw6), R(counters.assert3), R(cfgdiff.assert_limits),
+    'rules': [R(lock7a), olc('LOCK-7'), olc('ROLE'), R(ptr.ptr2), R(cfgdiff.assert_range), R(cfgdiff.assert_optimistic), R(lockword.lw6), R(counters.assert3), R(counters.assert5), R(cfgdiff.assert_limits),
               keep_keys(R(qsbr.q_barriers), lambda k: k.startswith('Q-5:order'), 'only the memory-order table: in the statistics-on builds the deallocation-statistics mutex adds happens-before edges on some schedules that the statistics-off builds do not have, so an access of the QSBR state word or the orphan lists that is weaker than the table demands is ordered in one configuration and racy in the other; the remaining parts of Q-5 are C04 / C05')],
     'technique': 'static analysis: configuration differencing (statement-signature alignment of every function across single-axis flips of the build configuration with an effect classifier), API-surface differencing, typestate dataflow for read-section overwrite',
     'multi_rules': [R(cfgdiff.run_matrix), R(simd_axis)],
@@ -367,7 +367,7 @@ PROPERTIES['C16'] = {
                    'PTR-2 (assertion-enabled configurations): the per-thread registry of live qsbr_ptr values is exact - every member function that changes the wrapped address unregisters the old value before and registers the new one after, on every path - so the three rejection assertions fire only when a wrapper is really alive (that they exist at all is C17, PTR-4: a missing assertion does not make a legal run abort): a stale registration makes the next legal quiescent state abort. LW-6 (assertion-enabled configurations): a read section clears its lock pointer on exactly the paths on which the lock-level call gave its read_lock_count unit back (check: on failure; try_read_unlock: always - conditions read off the lock code itself), so the unit is never given back twice. ASSERT-2 (assertion-enabled configurations): the copying node constructors of the OLC index - they build the larger / smaller replacement before the write guards are taken, from a node that is only read-locked - assert nothing about their source node (unvalidated optimistic reads: an assertion on them aborts a legal interleaving that the release build resolves by a failed upgrade and a restart). ASSERT-1 (assertion-enabled configurations): a debug-only counter compared with a narrower stored count cannot outgrow it (loop trip count capped by the node capacity <= 2^w - 1; a full I256 has 256 children and an 8-bit count). '
                    'LOCK-7b / ROLE: a read section is not used after it has been ended or handed to a callee that consumes it, and helpers receive the section their node argument was read under - in release builds a consumed section still carries its lock pointer and the slip goes unnoticed, in assertion-enabled builds the pointer is null and the next use crashes: behaviour would depend on the configuration. '
                    'LOCK-7a: in no function of the OLC code is a read section that may still be open overwritten by assignment. An overwritten open section loses its unit of the debug-build read_lock_count, which optimistic_lock::check_on_dealloc '
-                   'asserts to be zero when the node is freed - the one internal assertion that legal usage (scan, then remove) could trip. ASSERT-4 (assertion-enabled configurations) an overflow-precondition assertion `x <= numeric_limits<T>::max() - y` takes the limit of a type at least as wide as the quantities it bounds (the 16-bit size_type of the encoder in place of std::size_t makes it fire on keys longer than 64 KiB). ASSERT-3 (assertion-enabled configurations) the integer assertions inside the copy loops that rebuild a node from its neighbour class (I16 from a shrinking I48: `i < 255`; I48 from a growing I16: `i == capacity`) cannot fail: complete exploration of the finite state space (block, integer locals, occupied source slots seen so far), memory unknown except that exactly 16 of the 256 index slots of the shrinking I48 are occupied (ACC-1: an I48 shrinks exactly at 17 children; init empties the slot of the removed child first). Q-5 (memory-order table only): every atomic access of the QSBR state word and the orphan lists has the order the table demands in every configuration - the statistics-on builds take a mutex around the deallocation statistics that the statistics-off builds do not have, so a weaker order is masked on some schedules in one configuration and a data race in the other.',
+                   'asserts to be zero when the node is freed - the one internal assertion that legal usage (scan, then remove) could trip. ASSERT-4 (assertion-enabled configurations) an overflow-precondition assertion `x <= numeric_limits<T>::max() - y` takes the limit of a type at least as wide as the quantities it bounds (the 16-bit size_type of the encoder in place of std::size_t makes it fire on keys longer than 64 KiB). ASSERT-5 (assertion-enabled configurations with statistics) the relations between statistics counters asserted by the accounting code (shrinking <= growing and growing >= live nodes per node class, I4 growths > key-prefix splits) are evaluated on a frozen table of reachable counter valuations per counter pair (each reached by a short legal operation sequence): a relation one step too strict (`<` for `<=`) aborts on a class grown into once and shrunk out of once. ASSERT-3 (assertion-enabled configurations) the integer assertions inside the copy loops that rebuild a node from its neighbour class (I16 from a shrinking I48: `i < 255`; I48 from a growing I16: `i == capacity`) cannot fail: complete exploration of the finite state space (block, integer locals, occupied source slots seen so far), memory unknown except that exactly 16 of the 256 index slots of the shrinking I48 are occupied (ACC-1: an I48 shrinks exactly at 17 children; init empties the slot of the removed child first). Q-5 (memory-order table only): every atomic access of the QSBR state word and the orphan lists has the order the table demands in every configuration - the statistics-on builds take a mutex around the deallocation statistics that the statistics-off builds do not have, so a weaker order is masked on some schedules in one configuration and a data race in the other.',
     'decides': 'optional features (statistics, debug accounting) never write core state and core control flow never depends on them; assertion conditions are pure; balance of the debug read-section accounting on every path (typestate); the three rejection assertions exist',
     'does_not_decide': 'the aarch64 (NEON) and portable variants (not compiled on this platform); that every assertion is implied by the documented preconditions (general program verification) - only the accounting assertions LOCK-7a / PTR-4 are tied to code paths',
     'trusted_base': ['clang 14 front end', 'usa extractor and rule engine', 'semantics table of the x86 intrinsics used (cmpeq_epi8/epi64, max_epu8, packs_epi32, permute4x64, movemask_epi8, testz): Intel intrinsics guide'],
